@@ -177,7 +177,7 @@ def versions_for(lo, hi, bounds):
     vs = {None}
     for b in (lo, hi):
         if b is not None:
-            vs.update({round(b - 0.1, 2), float(b), round(b + 0.1, 2)})
+            vs.update({round(b - 0.1, 2), round(b - 0.04, 2), float(b), round(b + 0.04, 2), round(b + 0.1, 2)})
     vs.update(bounds)
     return sorted(vs, key=lambda x: (x is not None, x))
 
@@ -279,7 +279,7 @@ def histories(ctx, eng):
         prev = "start"
         for step in range(r.randint(5, 40)):
             op = r.choice(["validate-v", "validate-v", "validate", "export-v", "export", "expanded"])
-            ver = r.choice(bounds + [round(b + 0.1, 2) for b in bounds[:4]])
+            ver = r.choice(bounds + [round(b + 0.1, 2) for b in bounds[:4]] + [round(b - 0.04, 2) for b in bounds] + [round(b + 0.04, 2) for b in bounds])
             name, d = r.choice(docs)
             case = {"part": "history", "history": hi_, "step": step, "op": op, "version": ver, "schema": name, "previous": prev}
             res.count("history_steps")
